@@ -861,6 +861,8 @@ func (env *SpecEnv) evalCall(c *ECall) (Val, types.Type) {
 			tn = id.Name
 		} else if sel, ok := c.Args[1].(*ESel); ok {
 			tn = sel.String()
+		} else if str, ok := c.Args[1].(*EStr); ok {
+			tn = str.V
 		} else {
 			sfail("asptr needs a type name")
 		}
@@ -881,6 +883,8 @@ func (env *SpecEnv) evalCall(c *ECall) (Val, types.Type) {
 			tn = id.Name
 		} else if sel, ok := c.Args[1].(*ESel); ok {
 			tn = sel.String()
+		} else if str, ok := c.Args[1].(*EStr); ok {
+			tn = str.V
 		}
 		nt, err := vc.resolveNamed(tn, env.pkg)
 		if err != nil {
